@@ -500,10 +500,14 @@ def x3_generic_io(text, log):
     def gen(m):
         log.add("X3:generic-io")
         return ""
-    text2 = re.sub(r"<\s*([WR])\s*:\s*(Write|Read(?:\s*\+\s*Seek)?)\s*>", gen, text)
+    text2 = re.sub(r"<\s*(R)\s*:\s*(Read(?:\s*\+\s*Seek)?)\s*>", gen, text)
     if text2 != text:
-        text2 = re.sub(r"\bW\b", "VSink", text2)
         text2 = re.sub(r"\bR\b", "VSource", text2)
+    # writers stay generic: the bound becomes the prelude trait VWrite (VSink, Vec<u8>)
+    text3 = re.sub(r"<\s*W\s*:\s*Write\s*>", "<W: VWrite>", text2)
+    if text3 != text2:
+        log.add("X3:generic-io")
+    text2 = text3
     text2 = re.sub(r"::<LittleEndian>", lambda m: (log.add("X3:le-turbofish"), "")[1], text2)
     return text2
 
@@ -532,8 +536,8 @@ def x3b_by_value_writer(text, log):
     becomes `writer: &mut VSink`, and `&mut writer` / `writer.by_ref()` (a `&mut &mut VSink`
     handed to callees generic in W2) become the reborrow `&mut *writer` (callee at W2 = VSink).
     `impl Write for &mut W` forwards every call, so both forms drive the same sink."""
-    t2 = re.sub(r"<\s*W\s*:\s*Write\s*>", "", text)
-    t2 = re.sub(r"\b(?:mut )?writer\s*:\s*W\b", "writer: &mut VSink", t2)
+    t2 = re.sub(r"<\s*W\s*:\s*Write\s*>", "<W: VWrite>", text)
+    t2 = re.sub(r"\b(?:mut )?writer\s*:\s*W\b", "writer: &mut W", t2)
     t2 = t2.replace("&mut writer", "&mut *writer").replace("writer.by_ref()", "&mut *writer")
     t2 = re.sub(r"writer\.write_all\(&self\.(clsid|fmtid)\)", r"writer.write_all16(&self.\1)", t2)
     t2 = re.sub(r"::<LittleEndian>", "", t2)
